@@ -14,6 +14,7 @@ import ast
 
 from sa import mutate as M
 from sa.consts import UNKNOWN
+from sa import pattern as PT
 from sa.ctx import Ctx
 from sa.effects import Raises
 from sa.loader import AnalysisError, FuncInfo, call_name, norm, own_nodes, parent
@@ -348,7 +349,7 @@ def rule_sig_rules(ctx: Ctx, rep: Report) -> None:
     rep.ob(rule, "control_block_gate", any("check_output_pubkey" in t and pol is False for t, pol in r), tu.where(), "taproot_unwrap_script raises unless check_output_pubkey(...) is true")
     # legacy public key prefixes
     cp = ctx.func(f"{LEG}.check_pub_key")
-    txt = norm(cp.node)
+    txt = PT.text(cp)
     rep.ob(rule, "check_pub_key", "33" in txt and "65" in txt and ("WITNESS_PUBKEYTYPE" in txt and "STRICTENC" in txt), cp.where(), "compressed 33 / uncompressed 65 rules under STRICTENC and WITNESS_PUBKEYTYPE")
 
 
@@ -517,7 +518,7 @@ def rule_core_rows(ctx: Ctx, rep: Report) -> None:
     vs = ctx.func(f"{TAP}.verify_script_path_vc0")
     rep.ob(rule, "DISCOURAGE_OP_SUCCESS", any("DISCOURAGE_OP_SUCCESS" in c.subject for c in refusal_constraints(ctx, vs)), vs.where(), "OP_SUCCESS refused under the flag")
     oi = ctx.func(f"{OPS}.op_if")
-    txt = norm(oi.node)
+    txt = PT.text(oi)
     rep.ob(rule, "MINIMALIF", "MINIMALIF" in txt and any(c.op == "not in" and c.value == frozenset({b"", b"\x01"}) for c in refusal_constraints(ctx, oi)), oi.where(), "IF/NOTIF operand must be empty or 0x01 (consensus in tapscript, flag in v0)")
     nf = ctx.func(f"{LEG}.assert_nullfail")
     gn = ctx.cfg(nf)
